@@ -1,5 +1,8 @@
 \* C05 thorough tier: every (switch group, operand, operand, target) over all arithmetic types, six enum
 \* flavours, bit-fields of every integer kind and of four enum flavours at all ten widths (that fit).
+\* Devs: deviations of the shipped code still open. Fixed in /repo and therefore removed (a regression is a VIOLATION):
+\* CondSameTypeNoConversion (ba99903), ConvertKeepsCompatible + SizeofSeesBitfield (4c7c95a), DerefDecayedArrayDropsQual (13d3f3d),
+\* UacKeepsWideEnum (60245bf)
 SPECIFICATION Spec
 CONSTANTS
   TargetSet = {"x86_64-sysv", "aarch64", "riscv64"}
@@ -7,7 +10,7 @@ CONSTANTS
   BFKinds = {"bool", "char", "schar", "uchar", "short", "ushort", "int", "uint", "long", "ulong", "llong", "ullong"}
   EnumOps = {"eu", "es", "eul", "el", "efs", "efuc"}
   EnumBFs = {"eu", "es", "eul", "efs"}
-  Devs = {"CondSameTypeNoConversion", "CompositeIsFirst", "UacKeepsWideEnum", "SizeofSeesBitfield", "ConvertKeepsCompatible", "ArrayQualOnArrayType", "DerefDecayedArrayDropsQual"}
+  Devs = {"CompositeIsFirst", "ArrayQualOnArrayType"}
   Forms = {"bin", "cond", "un", "lit", "flt", "chr"}
   Emit = TRUE
 INVARIANTS Inv_Refines Inv_DevsExplain Inv_NoFatal Inv_UacSymmetric Inv_UacHoldsBoth Inv_PromoteIdempotent Inv_Emit
